@@ -2,6 +2,7 @@
 
 mod model;
 mod mon;
+mod real;
 mod run;
 mod scen;
 
@@ -79,6 +80,9 @@ fn main() {
 			std::process::exit(2);
 		}
 	};
+	if args.rest.get(1).map(String::as_str) == Some("--real-leg") {
+		std::process::exit(real::main_leg());
+	}
 	let h = Sup { prop: prop.clone(), set };
 	if args.rest.get(1).map(String::as_str) == Some("--count") {
 		let s = h.scenarios(args.tier);
@@ -167,6 +171,36 @@ fn main() {
 					}
 				}
 			}
+		}))
+	} else if prop == "C04" && args.worker.is_none() && args.replay.is_none() {
+		Some(Box::new(move |cov, viols| {
+			let exe = std::env::current_exe().expect("exe");
+			let Ok(o) = std::process::Command::new(exe).args(["C04", "--real-leg"]).output() else {
+				cov.insert("real_process_leg".into(), serde_json::json!("not run"));
+				return;
+			};
+			let text = String::from_utf8_lossy(&o.stdout).to_string();
+			let mut cases = vec![];
+			for l in text.lines().filter(|l| l.starts_with("REAL case=")) {
+				let name = l.split_whitespace().find_map(|t| t.strip_prefix("case=")).unwrap_or("?").to_string();
+				let ok = l.contains(" ok=true ");
+				let detail = l.split(" detail=").nth(1).unwrap_or("").to_string();
+				cases.push(serde_json::json!({"case": name, "ok": ok, "detail": detail}));
+				if !ok && !detail.starts_with("machinery:") {
+					viols.push(orch::ViolationRec {
+						property: "C04".into(),
+						key: format!("C04/real/{name}"),
+						detail,
+						harness: "h-supervisor/real".into(),
+						scenario: serde_json::json!({"real_case": name}),
+						bounds: None,
+						choices: vec![],
+						log: vec![],
+						count: 1,
+					});
+				}
+			}
+			cov.insert("real_process_leg".into(), serde_json::json!({"note": "fixed matrix of sequential scripts on real sh/sleep processes (production spawn path); binds SimChild to the OS, not an exploration", "cases": cases}));
 		}))
 	} else {
 		None
